@@ -261,8 +261,12 @@ def _node_dict(E, kind):
         E.assume(S.not_(S.startswith(key, "__")))      # a keyword, not a hidden key (postcondition of attr)
         return E.odict(pycls=OrderedDict, entries=[("__position__", Seg("pos")), ("__tokens__", Seg("toks")), (key, E.str("val"))])
     if kind == "composite":
+        # any block type but METADATA (which is the keyvalue case)
+        from contracts.transformer_c import block_type_names
+        typ = E.str("block.type")
+        E.assume(S.in_const_set(typ, [n for n in block_type_names() if n != "metadata"]))
         return E.odict(pycls=CaseInsensitiveOrderedDict, ci=True, factory=CaseInsensitiveOrderedDict,
-                       entries=[("__type__", "layer"), ("__comments__", E.odict(pycls=OrderedDict, entries=[("name", Seg("c"))])), ("name", E.str("n"))])
+                       entries=[("__type__", typ), ("__comments__", E.odict(pycls=OrderedDict, entries=[("name", Seg("c"))])), ("name", E.str("n"))])
     if kind == "keyvalue":
         return E.odict(pycls=CaseInsensitiveOrderedDict, ci=True, factory=CaseInsensitiveOrderedDict,
                        entries=[("a", E.str("va")), ("__type__", "validation")])
